@@ -18,6 +18,29 @@ def pick(rng, P, shapes=("D2", "D3", "D4", "S1", "D2n", "DN", "DU", "D5")):
             return sh, sizes
 
 
+def rebuild_universe(clauses, rng, limit=None):
+    """The universe of MC_FindMatches.cfg (2 files of 0..4 bytes, piece length 2, one or two candidates
+    per file out of five classes) as scenarios for the REAL rebuild."""
+    import itertools
+    classes = ["intact", "decoy_all", "decoy_some", "decoy_head", "longer"]
+    lists = [[c] for c in classes] + [[a, b] for a in classes for b in classes]
+    out = []
+    for n in (1, 2):
+        for sizes in itertools.product(range(5), repeat=n):
+            if sum(sizes) == 0:
+                continue
+            for cs in itertools.product(lists, repeat=n):
+                t = mk_tree("D1" if n == 1 else "D2", sizes)
+                for fi, f in enumerate(t["files"]):
+                    f["cands"] = [{"cls": c, "search": 0, "depth": 0} for c in cs[fi]]
+                    f["dest_pre"] = "absent"
+                out.append({"version": 1, "P": 2, "tree": t, "meta_src": "ref", "nsearch": 1, "unrelated": 0,
+                            "clauses": list(clauses), "scaled": True})
+    if limit and len(out) > limit:
+        out = rng.sample(out, limit)
+    return out
+
+
 class RebuildProp(Prop):
     engine = "E4-rebuild"
     runner = staticmethod(rebuild.run_rebuild)
@@ -159,6 +182,8 @@ class C13(RebuildProp):
                 f["dest_pre"] = "absent"
             c["more_trees"] = [t2]
             out.append(c)
+        # the model-checked universe of FindMatches replayed into the real rebuild (piece length 2)
+        out += rebuild_universe(self.clauses, rng, None if tier == "thorough" else 1200)
         # systematic: files ending exactly on a boundary, empty files in every position
         for v in (1, 2, 3):
             for P in (B, 2 * B):
@@ -228,6 +253,7 @@ class C14(RebuildProp):
                                 return [self.cand(rng, c, search=0, depth=k) for k, c in enumerate(second)]
                             return [self.cand(rng, "intact", search=0)]
                         out.append(self.scen(rng, P, v, (sh, sizes), cands, nsearch=1))
+        out += rebuild_universe(self.clauses, rng, None if tier == "thorough" else 1200)
         for v in (1, 2, 3):           # only dead decoys: nothing may be placed
             for sizes in ((B + 1, 2 * B), (5, 3 * B), (2 * B, 2 * B)):
                 out.append(self.scen(rng, B, v, ("D2", sizes), lambda fi, f: [self.cand(rng, "decoy_all")], nsearch=1))
